@@ -14,7 +14,8 @@ RULE = (
     "are week form or unit form, with optional years/months, single or mixed "
     "signs; b is often a re-spelling of a's exact length in other units "
     "(weeks / days / hours / seconds / mixed-sign carries) or a one-component "
-    "variation of a. Integer components for exact laws, decimals for "
+    "variation of a; one case in eight builds operands with the constructor's "
+    "standardize=True and/or weeks next to other units. Integer components for exact laws, decimals for "
     "tolerance laws (1 us). Oracle: algebraic laws (commutativity, "
     "associativity, identity, inverse, n*d == n-fold sum, a-b == a+(-1*b)); "
     "exact durations equal/ordered/hashed by exact total length; equal => "
@@ -83,7 +84,14 @@ def check_case(case):
     with M.use_mode(mode):
         try:
             D = M.lib().Duration
-            a, b, c = (M.make_duration(k) for k in (ka, kb, kc))
+            std = case.get("std") or [False, False, False]
+            a, b, c = (D(standardize=True, **k) if f else M.make_duration(k)
+                       for k, f in zip((ka, kb, kc), std))
+            if any(std):
+                classes.append("ctor/standardize")
+            if any("weeks" in k and len([v for v in k.values() if v]) > 1
+                   for k in (ka, kb, kc)):
+                classes.append("ctor/weeks_with_other_units")
             la, lb, lc = (M.dkw_len(k) for k in (ka, kb, kc))
             na, nb, nc = (nominal(k) for k in (ka, kb, kc))
             nab = (na[0] + nb[0], na[1] + nb[1])
@@ -102,6 +110,13 @@ def check_case(case):
                 same(n * a, (n * na[0], n * na[1]), n * la, "multiply"),
                 same(a * n, (n * na[0], n * na[1]), n * la, "multiply_right"),
             ]
+            if std[0]:
+                plain = M.make_duration(ka)
+                checks.append(same(a, na, la, "standardize"))
+                if int_class and (not (a == plain) or hash(a) != hash(plain)):
+                    checks.append("standardize_eq: Duration(%r, standardize="
+                                  "True) = %s is not equal to / hashes unlike "
+                                  "the unstandardized %s" % (ka, a, plain))
             fail = next((x for x in checks if x), None)
             if fail is None and int_class:
                 if not ((a + b) == (b + a) and ((a + b) + c) == (a + (b + c))
@@ -250,7 +265,19 @@ def st_case(draw):
         b = draw(st_dur(dec))
     c = draw(st_dur(dec))
     n = draw(st.one_of(st.integers(-50, 50), st.sampled_from([0, 1, -1, 2])))
-    return {"mode": mode, "a": a, "b": b, "c": c, "n": n}
+    case = {"mode": mode, "a": a, "b": b, "c": c, "n": n}
+    ctor = draw(st.integers(0, 7))
+    if ctor == 0:
+        # the constructor's own spellings: standardize=True (carries small
+        # units upward) must not change the value
+        case["std"] = draw(st.lists(st.booleans(), min_size=3, max_size=3))
+        case["std"][0] = True
+    if ctor <= 1:
+        # weeks given next to other units (folded into days by the constructor)
+        for k in (a, b):
+            if "weeks" not in k and draw(st.booleans()):
+                k["weeks"] = draw(st.sampled_from([1, -1, 2, 5, 52, -53]))
+    return case
 
 
 def run_shard(ctx):
